@@ -165,6 +165,37 @@ def mutate_tree(rng, w, tid, pool, trees_pool, depth=0, commits=()):
     return t
 
 
+def gen_treeswap(rng):
+    """a chain whose two directory slots rotate among a few trees that share a blob: the parent-diff walk emits
+    a directory while leaving a shared child to the parent's walk, which meets the same directory again elsewhere"""
+    w = World()
+    shared = w.blob(b"shared\n")
+    pool = []
+    for i in range(rng.choice([2, 3, 3, 4])):
+        ents = [(b"x", "file", shared), (b"y", "file", w.blob(b"y%d\n" % i))]
+        if rng.random() < 0.3:
+            ents.append((b"z", "dir", w.tree([(b"x", "file", shared), (b"k", "file", w.blob(b"k%d\n" % i))])))
+        pool.append(w.tree(ents))
+    commits, trees_pool = [], []
+    n = rng.randrange(3, 6)
+    times = list(range(n))
+    if rng.random() < 0.4:
+        rng.shuffle(times)
+    for k in range(n):
+        ents = [(b"p", "dir", rng.choice(pool)), (b"q", "dir", rng.choice(pool))]
+        if rng.random() < 0.3:
+            ents.append((b"a", "file", w.blob(b"a%d\n" % rng.randrange(2))))
+        t = w.tree(ents)
+        trees_pool.append(t)
+        parents = [commits[-1]] if commits else []
+        if len(commits) >= 2 and rng.random() < 0.2:
+            parents.append(commits[-2])
+        commits.append(w.commit(t, parents, 1000 + 10 * times[k], b"s%d" % k))
+    # an unrelated commit to have, so that the painted walk runs
+    other = w.commit(w.tree([(b"o", "file", w.blob(b"other\n"))]), [], 1000 + rng.randrange(-5, 60), b"other")
+    return w, commits, other, trees_pool
+
+
 def gen_world(rng, bucket):
     w = World()
     pool = [b"c%d\n" % i for i in range(rng.choice([2, 3, 5, 8]))]
@@ -264,6 +295,11 @@ def reach(w, roots, shallow=(), cut=True):
 
 
 def make_case(rng, bucket):
+    if bucket == "treeswap":
+        w, commits, other, _ = gen_treeswap(rng)
+        wants = [commits[-1]] + ([rng.choice(commits)] if rng.random() < 0.2 else [])
+        haves = [other] + ([commits[0]] if rng.random() < 0.15 else [])
+        return finish_case(w, bucket, wants, haves, [])
     w, commits, tags, trees_pool = gen_world(rng, bucket)
     shallow = []
     # queries
@@ -427,7 +463,7 @@ class Main(Suite):
 
     BUCKETS = [(3, "random"), (2, "skew"), (2, "crisscross"), (1, "equaltimes"), (1, "octopus"), (1, "chain"),
                (1, "tiny"), (1, "nohaves"), (2, "objwants"), (1, "missinghaves"), (1, "dups"), (2, "shallow"),
-               (1, "incomplete")]
+               (1, "incomplete"), (2, "treeswap")]
 
     def gen(self, rng, n, tier):
         return [make_case(rng, pick_weighted(rng, self.BUCKETS)) for _ in range(n)]
@@ -482,7 +518,9 @@ class Main(Suite):
             need_w = reach(w, c["wants"], sh)
             have = reach(w, c["haves"], sh)
             full_w = reach(w, c["wants"], sh, cut=False)
-            gw, gh = self._git_sets(ctx, c)
+            # the git binary walks every case in the thorough tier, a third of them in the quick tier (two
+            # process spawns per case); the python transcription of the spec, checked against git on those, judges all
+            gw, gh = self._git_sets(ctx, c) if (ctx.tier != "quick" or c["id"] % 3 == 0 or c["bucket"].startswith("corpus")) else (None, None)
             if gw is not None and gh is not None:
                 stats["git_walked"] += 1
                 if gw != need_w or not (need_w - have <= gw - gh) or not gh <= have:
